@@ -59,20 +59,16 @@ def fresh_graph(h0, h1, g):
 
 
 def optset(sv):
-    """contents of an optional iterable-of-H argument (empty when None)"""
+    """contents of an optional iterable-of-H argument (empty when None), as one z3 term"""
     if sv.ty == 'opt':
-        return hp.PSet(lambda x: z3.And(z3.Not(sv.x[0]), sv.x[1].x.mem[x]))
+        return z3.If(sv.x[0], hp.empty_set(), sv.x[1].x.mem)
     if sv.ty == 'none':
-        return hp.PSet(lambda x: z3.BoolVal(False))
+        return hp.empty_set()
     return sv.x.mem
 
 
 def optrel(sv):
-    if sv.ty == 'opt':
-        return hp.PSet(lambda x, y: z3.And(z3.Not(sv.x[0]), sv.x[1].x.mem[x, y]))
-    if sv.ty == 'none':
-        return hp.PSet(lambda x, y: z3.BoolVal(False))
-    return sv.x.mem
+    return optrel_term(sv)
 
 
 def optrel_term(sv):
